@@ -42,16 +42,230 @@ theorem stacked_eq_flatMap (db : Db F) (chain : List Atom) (key : Option Bytes) 
     | nil => simp [pathElems]
     | cons b rest' => simp [pathElems]
 
-/-- the elements of every set symbol are those of the path semantics -/
-theorem modelElems_eq_spec (db : Db F) (r : RSym) (id : Option Bytes) :
-    modelElems db r id = specElems db r id := by
+def RSym.atoms : RSym → List Atom
+  | .atom a => [a]
+  | .nonSetComp ch _ => ch
+  | .compSet iter last _ => iter ++ last
+
+/-- what `compose` guarantees about its results -/
+def WFR : RSym → Prop
+  | .atom _ => True
+  | .nonSetComp ch ty => ch.all (fun a => !a.isSet) = true ∧ 2 ≤ ch.length ∧ ty = pathTy ch
+  | .compSet iter last ty =>
+    last.all (fun a => !a.isSet) = true ∧ iter ≠ [] ∧ pathIsSet iter = true ∧ 2 ≤ (iter ++ last).length ∧
+      ty = pathTy (iter ++ last)
+
+theorem pathTy_cons (a : Atom) (l : List Atom) (h : l ≠ []) : pathTy (a :: l) = pathTy l := by
+  cases l with
+  | nil => exact absurd rfl h
+  | cons b t => simp [pathTy, List.getLast?_cons_cons]
+
+theorem atoms_id (r : RSym) (h : WFR r) : r.atoms = [Atom.id] ↔ r = .atom .id := by
   cases r with
-  | atom a => cases a <;> rfl
-  | nonSetComp c t => rfl
+  | atom a => simp [RSym.atoms]
+  | nonSetComp ch ty =>
+    simp only [RSym.atoms]
+    constructor
+    · intro e; have := h.2.1; rw [e] at this; simp at this
+    · intro e; cases e
+  | compSet iter last ty =>
+    simp only [RSym.atoms]
+    constructor
+    · intro e; have := h.2.2.2.1; rw [e] at this; simp at this
+    · intro e; cases e
+
+theorem compose_atoms (first : Atom) (rest : RSym) (hw : WFR rest) (ht : rest.hasTail = false) :
+    (compose first rest).atoms = (if rest.atoms = [Atom.id] then [first] else first :: rest.atoms) ∧
+    WFR (compose first rest) := by
+  cases rest with
+  | atom a =>
+    cases a with
+    | id => simp [compose, RSym.atoms, WFR]
+    | field st k ty l =>
+      have h1 : (Atom.field st k ty l).isSet = false := rfl
+      have h2 : (Atom.field st k ty l).ty = ty := rfl
+      by_cases hf : first.isSet = true
+      · simp [compose, RSym.atoms, WFR, hf, h1, h2, pathIsSet, pathTy]
+      · have hf' : first.isSet = false := by simpa using hf
+        simp [compose, RSym.atoms, WFR, hf', h1, h2, pathTy]
+    | set st k ty l =>
+      have h1 : (Atom.set st k ty l).isSet = true := rfl
+      have h2 : (Atom.set st k ty l).ty = ty := rfl
+      simp [compose, RSym.atoms, WFR, h1, h2, pathIsSet, pathTy]
+    | mapElem st mk k ty =>
+      have h1 : (Atom.mapElem st mk k ty).isSet = false := rfl
+      have h2 : (Atom.mapElem st mk k ty).ty = ty := rfl
+      by_cases hf : first.isSet = true
+      · simp [compose, RSym.atoms, WFR, hf, h1, h2, pathIsSet, pathTy]
+      · have hf' : first.isSet = false := by simpa using hf
+        simp [compose, RSym.atoms, WFR, hf', h1, h2, pathTy]
+  | nonSetComp ch ty =>
+    obtain ⟨hall, hlen, hty⟩ := hw
+    have hne : ch ≠ [] := by intro e; rw [e] at hlen; simp at hlen
+    have hid : ch ≠ [Atom.id] := by intro e; rw [e] at hlen; simp at hlen
+    by_cases hf : first.isSet = true
+    · simp only [compose, hf, Bool.not_true, Bool.false_eq_true, if_false, RSym.atoms, hid, WFR]
+      refine ⟨by simp, hall, by simp, by simp [pathIsSet, hf], by simp; omega, ?_⟩
+      rw [hty]; simp [pathTy_cons first ch hne]
+    · have hf' : first.isSet = false := by simpa using hf
+      simp only [compose, hf', Bool.not_false, if_true, RSym.atoms, hid, if_false, WFR]
+      refine ⟨trivial, by simp [hf', hall], by simp; omega, ?_⟩
+      rw [hty, pathTy_cons first ch hne]
   | compSet iter last ty =>
     cases last with
-    | nil => simp [modelElems, specElems, stacked_eq_flatMap]
-    | cons x xs => simp [modelElems, specElems, stacked_eq_flatMap]
+    | cons x xs => simp [RSym.hasTail] at ht
+    | nil =>
+      obtain ⟨_, hne, hset, hlen, hty⟩ := hw
+      have hid : iter ≠ [Atom.id] := by
+        intro e; rw [e] at hlen; simp at hlen
+      simp only [compose, RSym.atoms, List.append_nil, hid, if_false, WFR]
+      simp only [List.append_nil] at hlen hty
+      refine ⟨trivial, rfl, by simp, by simp [pathIsSet] at hset ⊢; exact Or.inr hset, by simp; omega, ?_⟩
+      rw [hty, pathTy_cons first iter hne]
+
+theorem resolve_path (defs : List StoreDef) : ∀ (parts : List String) (st : Nat),
+    regularParts defs st parts = true →
+    specPath defs st parts = (resolve defs st parts).map RSym.atoms ∧
+      (∀ r, resolve defs st parts = some r → WFR r)
+  | [], st, _ => ⟨rfl, by intro r h; simp [resolve] at h⟩
+  | [p], st, _ => by
+    simp only [specPath, resolve]
+    cases lookupSym defs st p with
+    | none => exact ⟨rfl, by intro r h; simp at h⟩
+    | some a => exact ⟨rfl, by intro r h; simp at h; subst h; trivial⟩
+  | p :: q :: rest, st, h => by
+    simp only [specPath, resolve]
+    simp only [regularParts] at h
+    cases hd : defs[st]? with
+    | none => exact ⟨rfl, by intro r h; simp at h⟩
+    | some d =>
+      simp only [hd] at h ⊢
+      cases hm : d.maps.lookup p with
+      | some ty =>
+        simp only
+        by_cases he : rest.isEmpty = true
+        · simp only [he, if_true]
+          exact ⟨rfl, by intro r h; simp at h; subst h; trivial⟩
+        · simp only [he, Bool.false_eq_true, if_false]
+          exact ⟨rfl, by intro r h; simp at h⟩
+      | none =>
+        simp only [hm] at h ⊢
+        cases hl : lookupSym defs st p with
+        | none => exact ⟨rfl, by intro r h; simp at h⟩
+        | some first =>
+          simp only [hl] at h ⊢
+          cases hlk : first.linked with
+          | none => exact ⟨rfl, by intro r h; simp at h⟩
+          | some st' =>
+            simp only [hlk, Bool.and_eq_true] at h ⊢
+            have ih := resolve_path defs (q :: rest) st' h.1
+            cases first with
+            | id => exact ⟨rfl, by intro r h; simp at h⟩
+            | field fs fk fty fl =>
+              simp only
+              rw [ih.1]
+              cases hr : resolve defs st' (q :: rest) with
+              | none => exact ⟨rfl, by intro r h; simp at h⟩
+              | some r =>
+                have hw := ih.2 r hr
+                have ht : r.hasTail = false := by simpa [hr] using h.2
+                have hc := compose_atoms (.field fs fk fty fl) r hw ht
+                refine ⟨by simp [hc.1], ?_⟩
+                intro r' hr'; simp at hr'; subst hr'; exact hc.2
+            | set fs fk fty fl =>
+              simp only
+              rw [ih.1]
+              cases hr : resolve defs st' (q :: rest) with
+              | none => exact ⟨rfl, by intro r h; simp at h⟩
+              | some r =>
+                have hw := ih.2 r hr
+                have ht : r.hasTail = false := by simpa [hr] using h.2
+                have hc := compose_atoms (.set fs fk fty fl) r hw ht
+                refine ⟨by simp [hc.1], ?_⟩
+                intro r' hr'; simp at hr'; subst hr'; exact hc.2
+            | mapElem fs mk fk fty => simp [Atom.linked] at hlk
+
+theorem levelVals_nonset (db : Db F) (a : Atom) (h : a.isSet = false) (key : Option Bytes) :
+    levelVals db a key = [evalAtom db a key] := by
+  cases a <;> simp_all [levelVals, Atom.isSet]
+
+theorem pathElems_nonset (db : Db F) : ∀ (ch : List Atom), ch ≠ [] → ch.all (fun a => !a.isSet) = true →
+    ∀ key, pathElems db ch key = [evalChain db ch key]
+  | [], h, _, _ => absurd rfl h
+  | [a], _, ha, key => by
+    simp only [List.all_cons, List.all_nil, Bool.and_true, Bool.not_eq_eq_eq_not, Bool.not_true] at ha
+    simp [pathElems, evalChain, levelVals_nonset db a ha]
+  | a :: b :: rest, _, ha, key => by
+    simp only [List.all_cons, Bool.and_eq_true, Bool.not_eq_eq_eq_not, Bool.not_true] at ha
+    have ih := pathElems_nonset db (b :: rest) (by simp) (by simp [ha.2.1, ha.2.2])
+    simp [pathElems, evalChain, levelVals_nonset db a ha.1, ih]
+
+theorem pathElems_append (db : Db F) (last : List Atom) (hl : last ≠ [])
+    (hns : last.all (fun a => !a.isSet) = true) :
+    ∀ (iter : List Atom), iter ≠ [] → ∀ key,
+      pathElems db (iter ++ last) key = (pathElems db iter key).map fun v => evalChain db last (linkKey v)
+  | [], h, _ => absurd rfl h
+  | [a], _, key => by
+    cases last with
+    | nil => exact absurd rfl hl
+    | cons x xs =>
+      simp only [List.singleton_append, pathElems]
+      rw [List.flatMap_eq_foldl] <;> skip
+      induction levelVals db a key with
+      | nil => rfl
+      | cons v vs ih => simp [pathElems_nonset db (x :: xs) (by simp) hns, List.flatMap_cons] at ih ⊢; simpa using ih
+  | a :: b :: rest, _, key => by
+    have ih := pathElems_append db last hl hns (b :: rest) (by simp)
+    cases hlast : (b :: rest) ++ last with
+    | nil => simp at hlast
+    | cons y ys =>
+      have : (a :: b :: rest) ++ last = a :: (y :: ys) := by simp [← hlast]
+      rw [this]
+      simp only [pathElems, List.map_flatMap]
+      congr 1
+      funext v
+      rw [← hlast]
+      exact ih (linkKey v)
+
+/-- a resolved symbol (as `compose` builds it) means what its path means -/
+theorem sem_eq (db : Db F) (r : RSym) (hw : WFR r) (key : Option Bytes) :
+    r.isSet = pathIsSet r.atoms ∧ r.ty = pathTy r.atoms ∧
+    (r.hasTail = false → r.linked = pathLinked r.atoms) ∧
+    (r.isSet = false → symVal db r key = evalChain db r.atoms key) ∧
+    (r.isSet = true → modelElems db r key = pathElems db r.atoms key) ∧
+    (r.isSet = true → r.hasTail = false → cursorKeys db r key = pathElems db r.atoms key) := by
+  cases r with
+  | atom a =>
+    cases a <;> simp [RSym.isSet, RSym.atoms, RSym.ty, RSym.linked, pathIsSet, pathTy, pathLinked, Atom.isSet,
+      symVal, evalChain, modelElems, cursorKeys, pathElems]
+  | nonSetComp ch ty =>
+    obtain ⟨hall, hlen, hty⟩ := hw
+    have hns : pathIsSet ch = false := by
+      simp only [pathIsSet]
+      apply List.any_eq_false.mpr
+      intro a ha
+      have := List.all_eq_true.mp hall a ha
+      simpa using this
+    simp [RSym.isSet, RSym.atoms, RSym.ty, RSym.linked, hns, hty, pathLinked, symVal]
+  | compSet iter last ty =>
+    obtain ⟨hall, hne, hset, hlen, hty⟩ := hw
+    have hany : pathIsSet (iter ++ last) = true := by
+      simp only [pathIsSet, List.any_append] at hset ⊢; simp [hset]
+    refine ⟨by simp [RSym.isSet, RSym.atoms, hany], by simp [RSym.ty, RSym.atoms, hty], ?_, by simp [RSym.isSet], ?_, ?_⟩
+    · intro ht
+      cases last with
+      | nil => simp [RSym.linked, RSym.atoms, pathLinked]
+      | cons x xs => simp [RSym.hasTail] at ht
+    · intro _
+      cases last with
+      | nil => simp [modelElems, RSym.atoms, stacked_eq_flatMap]
+      | cons x xs =>
+        simp only [modelElems, RSym.atoms, stacked_eq_flatMap]
+        exact (pathElems_append db (x :: xs) (by simp) hall iter hne key).symm
+    · intro _ ht
+      cases last with
+      | nil => simp [cursorKeys, RSym.atoms, stacked_eq_flatMap]
+      | cons x xs => simp [RSym.hasTail] at ht
 
 theorem filter_const_true {α} (l : List α) : l.filter (fun _ => true) = l := by
   induction l with
@@ -71,109 +285,187 @@ theorem cursorRows_live (linked : Option Nat) (es : List (SVal F)) :
       | none => simpa [List.filterMap_cons, hk] using ih
       | some k => simpa [List.filterMap_cons, hk] using ih
 
-theorem pathLinked_of_plain (r : RSym) (h : r.plainCursor = true) : r.pathLinked = r.linked := by
-  cases r with
-  | atom a => rfl
-  | nonSetComp c t => rfl
-  | compSet iter last ty =>
-    cases last with
-    | nil => rfl
-    | cons x xs => simp [RSym.plainCursor] at h
-
-theorem world_elems_eq (db : Db F) (c : Ctx) (n : String) :
-    (modelWorld db).elems c n = (specWorld db).elems c n ∧
-    (modelWorld db).val c n = (specWorld db).val c n ∧
-    (namePlain db.defs c.1 n = true → liveRows (modelWorld db) c n = liveRows (specWorld db) c n) := by
-  simp only [liveRows, modelWorld, specWorld, namePlain]
+/-- On a regularly resolved name the world the code computes and the path semantics agree: symbol
+    table entry, value, set elements; for the symbol of a sub-query also entity type and rows. -/
+theorem world_name_eq (db : Db F) (c : Ctx) (n : String) (sub : Bool) (h : nameOK db.defs sub c.1 n = true) :
+    (dbSigma db.defs).sym c.1 n = (dbSpecSigma db.defs).sym c.1 n ∧
+    (((dbSigma db.defs).sym c.1 n).map (·.2) = some false → (modelWorld db).val c n = (specWorld db).val c n) ∧
+    (((dbSigma db.defs).sym c.1 n).map (·.2) = some true → (modelWorld db).elems c n = (specWorld db).elems c n) ∧
+    (sub = true → ((dbSigma db.defs).sym c.1 n).map (·.2) = some true →
+      (dbSigma db.defs).setTypes c.1 n = (dbSpecSigma db.defs).setTypes c.1 n ∧
+      liveRows (modelWorld db) c n = liveRows (specWorld db) c n) := by
+  simp only [nameOK, Bool.and_eq_true] at h
+  obtain ⟨hp, hwf⟩ := resolve_path db.defs (splitName n) c.1 h.1
+  simp only [dbSigma, dbSpecSigma, modelWorld, specWorld, liveRows, hp]
   cases hr : resolve db.defs c.1 (splitName n) with
   | none => simp
   | some r =>
-    refine ⟨by simp [modelElems_eq_spec db r], trivial, ?_⟩
-    intro h
-    simp only at h
-    have hk : cursorKeys db r c.2 = specElems db r c.2 := by
-      cases r with
-      | atom a => cases a <;> rfl
-      | nonSetComp ch t => rfl
-      | compSet iter last ty =>
-        cases last with
-        | nil => simp [cursorKeys, specElems, stacked_eq_flatMap]
-        | cons x xs => simp [RSym.plainCursor] at h
-    simp only [hk, Bool.not_false, filter_const_true]
-    rw [pathLinked_of_plain r h]
-    exact cursorRows_live _ _
+    have hw := hwf r hr
+    obtain ⟨h1, h2, h3, h4, h5, h6⟩ := sem_eq db r hw c.2
+    simp only [Option.map_some, Option.bind_some]
+    refine ⟨by rw [h1, h2], ?_, ?_, ?_⟩
+    · intro hs
+      have hs' : r.isSet = false := by simpa using hs
+      have : pathIsSet r.atoms = false := by rw [← h1]; exact hs'
+      simp [this, h4 hs']
+    · intro hs
+      have hs' : r.isSet = true := by simpa using hs
+      have : pathIsSet r.atoms = true := by rw [← h1]; exact hs'
+      simp [this, h5 hs']
+    · intro hsub hs
+      have hs' : r.isSet = true := by simpa using hs
+      have hps : pathIsSet r.atoms = true := by rw [← h1]; exact hs'
+      have ht : r.hasTail = false := by
+        have := h.2
+        simp only [hsub, Bool.not_true, Bool.false_or, hr] at this
+        simpa using this
+      refine ⟨h3 ht, ?_⟩
+      simp only [hps, if_true, h6 hs' ht, h3 ht, Bool.not_false, filter_const_true]
+      exact cursorRows_live _ _
 
-@[simp] theorem symType_spec (defs : List StoreDef) (t : Nat) (n : String) :
-    symType (dbSpecSigma defs) t n = symType (dbSigma defs) t n := rfl
-
-theorem setTypes_spec_of_plain (defs : List StoreDef) (t : Nat) (n : String) (h : namePlain defs t n = true) :
-    (dbSpecSigma defs).setTypes t n = (dbSigma defs).setTypes t n := by
-  simp only [dbSpecSigma, dbSigma, namePlain] at h ⊢
-  cases hr : resolve defs t (splitName n) with
-  | none => rfl
-  | some r => simp only [hr] at h; simp [pathLinked_of_plain r h]
-
-/-- the model world and the specification world give the same `sat` (sub-queries ranging over
-    plain cursors without nil rows) -/
+/-- the model world under the code's symbol tables and the specification world under the path
+    semantics give the same `sat` on filters whose names resolve regularly -/
 theorem sat_world_eq (db : Db F) (fo : FloatOps F) :
-    ∀ (f : U F) (t : Nat) (c : Ctx), c.1 = t → subQueriesPlain db.defs t f = true →
+    ∀ (f : U F) (t : Nat) (c : Ctx), c.1 = t → namesOK db.defs t f = true →
+      wellTyped (dbSigma db.defs) fo t f = true ∨ (lhsType (dbSigma db.defs) fo t f).isSome = true →
       sat (dbSigma db.defs) (modelWorld db) fo t c f = sat (dbSpecSigma db.defs) (specWorld db) fo t c f ∧
       lhsDen (dbSigma db.defs) (modelWorld db) fo t c f = lhsDen (dbSpecSigma db.defs) (specWorld db) fo t c f := by
   intro f
   induction f with
   | sym n =>
-    intro t c hc _
+    intro t c hc h hwt
     subst hc
-    have := world_elems_eq db c n
-    simp [sat, lhsDen, this.2.1]
+    have hn := world_name_eq db c n false (by simpa [namesOK] using h)
+    have hns : ((dbSigma db.defs).sym c.1 n).map (·.2) = some false := by
+      rcases hwt with hwt | hwt
+      · simp only [wellTyped] at hwt
+        cases hs : (dbSigma db.defs).sym c.1 n with
+        | none => simp [hs] at hwt
+        | some x => obtain ⟨τ, b⟩ := x; cases τ <;> cases b <;> simp [hs] at hwt <;> rfl
+      · simp only [lhsType] at hwt
+        cases hs : (dbSigma db.defs).sym c.1 n with
+        | none => simp [hs] at hwt
+        | some x => obtain ⟨τ, b⟩ := x; cases b <;> simp [hs] at hwt <;> rfl
+    simp [sat, lhsDen, symType, ← hn.1, hn.2.1 hns]
   | setFn fn n =>
-    intro t c hc _
+    intro t c hc h hwt
     subst hc
-    have := world_elems_eq db c n
-    cases fn <;> simp [sat, lhsDen, this.1]
+    have hn := world_name_eq db c n false (by simpa [namesOK] using h)
+    have hss : ((dbSigma db.defs).sym c.1 n).map (·.2) = some true := by
+      rcases hwt with hwt | hwt
+      · cases hs : (dbSigma db.defs).sym c.1 n with
+        | none => cases fn <;> simp [wellTyped, hs] at hwt
+        | some x => obtain ⟨τ, b⟩ := x; cases fn <;> cases b <;> simp [wellTyped, hs] at hwt <;> rfl
+      · cases hs : (dbSigma db.defs).sym c.1 n with
+        | none => cases fn <;> simp [lhsType, hs] at hwt
+        | some x => obtain ⟨τ, b⟩ := x; cases fn <;> cases b <;> simp [lhsType, hs] at hwt <;> rfl
+    cases fn <;> simp [sat, lhsDen, symType, ← hn.1, hn.2.2.1 hss]
   | setFnSub fn n q sk li ih =>
-    intro t c hc h
+    intro t c hc h hwt
     subst hc
-    simp only [subQueriesPlain, Bool.and_eq_true] at h
-    have hw := world_elems_eq db c n
-    have hsp := setTypes_spec_of_plain db.defs c.1 n h.1
-    cases hst : (dbSigma db.defs).setTypes c.1 n with
-    | none => cases fn <;> simp [sat, lhsDen, hst, hsp]
-    | some t' =>
-      have hq : subQueriesPlain db.defs t' q = true := by simpa [hst] using h.2
-      -- every sub-row context belongs to the linked store t'
-      have hctx : ∀ c' ∈ liveRows (specWorld db) c n, c'.1 = t' := by
-        intro c' hc'
-        simp only [liveRows, specWorld, Bool.not_false, filter_const_true] at hc'
-        have hnp := h.1
-        simp only [dbSigma, namePlain] at hst hnp
-        cases hr : resolve db.defs c.1 (splitName n) with
-        | none => simp [hr] at hc'
-        | some r =>
-          simp only [hr, Option.bind_some] at hst hc' hnp
-          rw [pathLinked_of_plain r hnp] at hc'
-          simp only [subRowsOf, hst, List.mem_filterMap] at hc'
+    simp only [namesOK, Bool.and_eq_true] at h
+    have hn := world_name_eq db c n true h.1
+    -- the typing facts: n is a set symbol with a linked entity type, q is well-typed there
+    have hty : ((dbSigma db.defs).sym c.1 n).map (·.2) = some true ∧
+        ∃ t', (dbSigma db.defs).setTypes c.1 n = some t' ∧ wellTyped (dbSigma db.defs) fo t' q = true := by
+      rcases hwt with hwt | hwt
+      · cases hs : (dbSigma db.defs).sym c.1 n with
+        | none => cases fn <;> simp [wellTyped, hs] at hwt
+        | some x =>
+          obtain ⟨τ, b⟩ := x
+          cases hst : (dbSigma db.defs).setTypes c.1 n with
+          | none => cases fn <;> cases b <;> simp [wellTyped, hs, hst] at hwt
+          | some t' =>
+            cases fn <;> cases b <;> simp [wellTyped, hs, hst] at hwt
+            exact ⟨rfl, t', rfl, hwt.2⟩
+      · cases hs : (dbSigma db.defs).sym c.1 n with
+        | none => cases fn <;> simp [lhsType, hs] at hwt
+        | some x =>
+          obtain ⟨τ, b⟩ := x
+          cases hst : (dbSigma db.defs).setTypes c.1 n with
+          | none => cases fn <;> cases b <;> simp [lhsType, hs, hst] at hwt
+          | some t' =>
+            cases fn <;> cases b <;> simp [lhsType, hs, hst] at hwt
+            exact ⟨rfl, t', rfl, hwt.2⟩
+    obtain ⟨hss, t', hst, hq⟩ := hty
+    have hsub := hn.2.2.2 rfl hss
+    have hnq : namesOK db.defs t' q = true := by simpa [hst] using h.2
+    have hst' : (dbSpecSigma db.defs).setTypes c.1 n = some t' := by rw [← hsub.1]; exact hst
+    -- every live sub-row context belongs to the linked store t'
+    have hctx : ∀ c' ∈ liveRows (specWorld db) c n, c'.1 = t' := by
+      intro c' hc'
+      simp only [liveRows, specWorld, Bool.not_false, filter_const_true] at hc'
+      simp only [dbSpecSigma] at hst'
+      cases hp : specPath db.defs c.1 (splitName n) with
+      | none => simp [hp] at hc'
+      | some p =>
+        simp only [hp, Option.bind_some] at hst' hc'
+        by_cases hps : pathIsSet p = true
+        · simp only [hps, if_true, subRowsOf, hst', List.mem_filterMap] at hc'
           obtain ⟨v, _, hv⟩ := hc'
           cases hk : linkKey v with
           | none => simp [hk] at hv
           | some k => simp [hk] at hv; rw [← hv]
-      have hfil : (List.filter (fun c' => sat (dbSigma db.defs) (modelWorld db) fo t' c' q) (liveRows (specWorld db) c n)) =
-          (List.filter (fun c' => sat (dbSpecSigma db.defs) (specWorld db) fo t' c' q) (liveRows (specWorld db) c n)) := by
-        apply List.filter_congr
-        intro c' hc'
-        exact (ih t' c' (hctx c' hc') hq).1
-      have hsub := hw.2.2 h.1
-      cases fn <;> simp [sat, lhsDen, hst, hsp, hsub, hfil]
-  | boolC b => intro t c _ _; simp [sat, lhsDen]
-  | cmp op l r ih => intro t c hc h; simp [sat, lhsDen, (ih t c hc (by simpa [subQueriesPlain] using h)).2]
-  | inArr l arr ih => intro t c hc h; simp [sat, lhsDen, (ih t c hc (by simpa [subQueriesPlain] using h)).2]
-  | between l lo hi ih => intro t c hc h; simp [sat, lhsDen, (ih t c hc (by simpa [subQueriesPlain] using h)).2]
-  | notE e ih => intro t c hc h; simp [sat, lhsDen, (ih t c hc (by simpa [subQueriesPlain] using h)).1]
-  | unot e ih => intro t c hc h; simp [sat, lhsDen, (ih t c hc (by simpa [subQueriesPlain] using h)).1]
+        · simp [hps] at hc'
+    have hfil : (List.filter (fun c' => sat (dbSigma db.defs) (modelWorld db) fo t' c' q) (liveRows (specWorld db) c n)) =
+        (List.filter (fun c' => sat (dbSpecSigma db.defs) (specWorld db) fo t' c' q) (liveRows (specWorld db) c n)) := by
+      apply List.filter_congr
+      intro c' hc'
+      exact (ih t' c' (hctx c' hc') hnq (Or.inl hq)).1
+    cases fn <;> simp [sat, lhsDen, hst, hst', hsub.2, hfil]
+  | boolC b => intro t c _ _ _; simp [sat, lhsDen]
+  | cmp op l r ih =>
+    intro t c hc h hwt
+    have hl : (lhsType (dbSigma db.defs) fo t l).isSome = true := by
+      rcases hwt with hwt | hwt
+      · simp only [wellTyped] at hwt
+        cases hl : lhsType (dbSigma db.defs) fo t l with
+        | none => simp [hl] at hwt
+        | some x => rfl
+      · simp [lhsType] at hwt
+    simp [sat, lhsDen, (ih t c hc (by simpa [namesOK] using h) (Or.inr hl)).2]
+  | inArr l arr ih =>
+    intro t c hc h hwt
+    have hl : (lhsType (dbSigma db.defs) fo t l).isSome = true := by
+      rcases hwt with hwt | hwt
+      · simp only [wellTyped] at hwt
+        cases hl : lhsType (dbSigma db.defs) fo t l with
+        | none => simp [hl] at hwt
+        | some x => rfl
+      · simp [lhsType] at hwt
+    simp [sat, lhsDen, (ih t c hc (by simpa [namesOK] using h) (Or.inr hl)).2]
+  | between l lo hi ih =>
+    intro t c hc h hwt
+    have hl : (lhsType (dbSigma db.defs) fo t l).isSome = true := by
+      rcases hwt with hwt | hwt
+      · simp only [wellTyped] at hwt
+        cases hl : lhsType (dbSigma db.defs) fo t l with
+        | none => simp [hl] at hwt
+        | some x => rfl
+      · simp [lhsType] at hwt
+    simp [sat, lhsDen, (ih t c hc (by simpa [namesOK] using h) (Or.inr hl)).2]
+  | notE e ih =>
+    intro t c hc h hwt
+    have he : wellTyped (dbSigma db.defs) fo t e = true := by
+      rcases hwt with hwt | hwt
+      · simp only [wellTyped, Bool.and_eq_true] at hwt; exact hwt.2
+      · simp [lhsType] at hwt
+    simp [sat, lhsDen, (ih t c hc (by simpa [namesOK] using h) (Or.inl he)).1]
+  | unot e ih =>
+    intro t c hc h hwt
+    have he : wellTyped (dbSigma db.defs) fo t e = true := by
+      rcases hwt with hwt | hwt
+      · simpa [wellTyped] using hwt
+      · simp [lhsType] at hwt
+    simp [sat, lhsDen, (ih t c hc (by simpa [namesOK] using h) (Or.inl he)).1]
   | logic o l r ihl ihr =>
-    intro t c hc h
-    simp only [subQueriesPlain, Bool.and_eq_true] at h
-    simp [sat, lhsDen, (ihl t c hc h.1).1, (ihr t c hc h.2).1]
+    intro t c hc h hwt
+    simp only [namesOK, Bool.and_eq_true] at h
+    have he : wellTyped (dbSigma db.defs) fo t l = true ∧ wellTyped (dbSigma db.defs) fo t r = true := by
+      rcases hwt with hwt | hwt
+      · simpa [wellTyped] using hwt
+      · simp [lhsType] at hwt
+    simp [sat, lhsDen, (ihl t c hc h.1 (Or.inl he.1)).1, (ihr t c hc h.2 (Or.inl he.2)).1]
 
 /-- seekable cursors of the bolt-backed world range over sorted string buckets -/
 theorem modelWorld_seekOK (db : Db F) (h : WellFormedDb db) : SeekOK (modelWorld db) := by
@@ -210,22 +502,140 @@ theorem resolve_out_of_range (defs : List StoreDef) (t : Nat) (h : defs[t]? = no
   | [p] => by simp [resolve, lookupSym, h]
   | p :: q :: rest => by simp [resolve, h]
 
-theorem subQueriesPlain_of_noSubQuery (defs : List StoreDef) :
-    ∀ (f : U F) (t : Nat), noSubQuery f = true → subQueriesPlain defs t f = true := by
+/-! ### names with at most three segments resolve regularly -/
+
+theorem compose_atom_noTail (first a : Atom) : (compose first (.atom a)).hasTail = false := by
+  cases a <;> simp only [compose] <;> (try split) <;> rfl
+
+theorem resolve2_noTail (defs : List StoreDef) (st : Nat) (p q : String) (r : RSym)
+    (h : resolve defs st [p, q] = some r) : r.hasTail = false := by
+  simp only [resolve] at h
+  cases hd : defs[st]? with
+  | none => simp [hd] at h
+  | some d =>
+    simp only [hd] at h
+    cases hm : d.maps.lookup p with
+    | some ty => simp [hm] at h; subst h; rfl
+    | none =>
+      simp only [hm] at h
+      cases hl : lookupSym defs st p with
+      | none => simp [hl] at h
+      | some first =>
+        simp only [hl] at h
+        cases hlk : first.linked with
+        | none => simp [hlk] at h
+        | some st' =>
+          simp only [hlk] at h
+          cases first with
+          | id => simp at h
+          | mapElem a b c d => simp [Atom.linked] at hlk
+          | field fs fk ft fl =>
+            simp only at h
+            cases ha : lookupSym defs st' q with
+            | none => simp [ha] at h
+            | some a => simp [ha] at h; subst h; exact compose_atom_noTail _ a
+          | set fs fk ft fl =>
+            simp only at h
+            cases ha : lookupSym defs st' q with
+            | none => simp [ha] at h
+            | some a => simp [ha] at h; subst h; exact compose_atom_noTail _ a
+
+theorem regular_le3 (defs : List StoreDef) : ∀ (st : Nat) (parts : List String), parts.length ≤ 3 →
+    regularParts defs st parts = true
+  | _, [], _ => rfl
+  | _, [_], _ => rfl
+  | st, [p, q], _ => by
+    simp only [regularParts]
+    cases defs[st]? with
+    | none => rfl
+    | some d =>
+      simp only
+      cases d.maps.lookup p with
+      | some _ => rfl
+      | none =>
+        simp only
+        cases lookupSym defs st p with
+        | none => rfl
+        | some first =>
+          simp only
+          cases first.linked with
+          | none => rfl
+          | some st' =>
+            simp only [resolve, Bool.true_and]
+            cases lookupSym defs st' q with
+            | none => rfl
+            | some a => rfl
+  | st, [p, q, r], _ => by
+    have key : ∀ st', regularParts defs st' [q, r] = true := fun st' => regular_le3 defs st' [q, r] (by simp)
+    rw [regularParts]
+    cases defs[st]? with
+    | none => rfl
+    | some d =>
+      simp only
+      cases d.maps.lookup p with
+      | some _ => rfl
+      | none =>
+        simp only
+        cases lookupSym defs st p with
+        | none => rfl
+        | some first =>
+          simp only
+          cases first.linked with
+          | none => rfl
+          | some st' =>
+            simp only [key st', Bool.true_and]
+            cases hr : resolve defs st' [q, r] with
+            | none => rfl
+            | some x => simp [resolve2_noTail defs st' q r x hr]
+  | _, _ :: _ :: _ :: _ :: _, h => by simp at h
+
+/-- names of at most three segments everywhere, of at most two segments for the symbol of a sub-query -/
+def shortNames : U F → Bool
+  | .sym n => (splitName n).length ≤ 3
+  | .setFn _ n => (splitName n).length ≤ 3
+  | .setFnSub _ n q _ _ => (splitName n).length ≤ 2 && shortNames q
+  | .boolC _ => true
+  | .cmp _ l _ => shortNames l
+  | .inArr l _ => shortNames l
+  | .between l _ _ => shortNames l
+  | .notE e => shortNames e
+  | .unot e => shortNames e
+  | .logic _ l r => shortNames l && shortNames r
+
+theorem namesOK_of_short (defs : List StoreDef) : ∀ (f : U F) (t : Nat), shortNames f = true → namesOK defs t f = true := by
   intro f
   induction f with
-  | setFnSub fn n q sk li ih => intro t h; simp [noSubQuery] at h
-  | cmp op l r ih => intro t h; simpa [subQueriesPlain] using ih t (by simpa [noSubQuery] using h)
-  | inArr l arr ih => intro t h; simpa [subQueriesPlain] using ih t (by simpa [noSubQuery] using h)
-  | between l lo hi ih => intro t h; simpa [subQueriesPlain] using ih t (by simpa [noSubQuery] using h)
-  | notE e ih => intro t h; simpa [subQueriesPlain] using ih t (by simpa [noSubQuery] using h)
-  | unot e ih => intro t h; simpa [subQueriesPlain] using ih t (by simpa [noSubQuery] using h)
+  | sym n => intro t h; simp only [shortNames, decide_eq_true_eq] at h; simp [namesOK, nameOK, regular_le3 defs t _ h]
+  | setFn fn n => intro t h; simp only [shortNames, decide_eq_true_eq] at h; simp [namesOK, nameOK, regular_le3 defs t _ h]
+  | setFnSub fn n q sk li ih =>
+    intro t h
+    simp only [shortNames, Bool.and_eq_true, decide_eq_true_eq] at h
+    have hreg := regular_le3 defs t (splitName n) (by omega)
+    have hnt : (match resolve defs t (splitName n) with | some r => !r.hasTail | none => true) = true := by
+      cases hr : resolve defs t (splitName n) with
+      | none => rfl
+      | some r =>
+        have : r.hasTail = false := by
+          match hs : splitName n, h.1 with
+          | [], _ => simp [hs, resolve] at hr
+          | [p], _ => simp [hs, resolve] at hr; obtain ⟨a, _, rfl⟩ := hr; rfl
+          | [p, q], _ => rw [hs] at hr; exact resolve2_noTail defs t p q r hr
+          | _ :: _ :: _ :: _, hl => simp at hl
+        simp [this]
+    simp only [namesOK, nameOK, hreg, Bool.not_true, Bool.false_or, Bool.true_and, Bool.and_eq_true]
+    refine ⟨hnt, ?_⟩
+    cases (dbSigma defs).setTypes t n with
+    | none => rfl
+    | some t' => exact ih t' h.2
+  | boolC b => intro t _; rfl
+  | cmp op l r ih => intro t h; exact ih t (by simpa [shortNames] using h)
+  | inArr l arr ih => intro t h; exact ih t (by simpa [shortNames] using h)
+  | between l lo hi ih => intro t h; exact ih t (by simpa [shortNames] using h)
+  | notE e ih => intro t h; exact ih t (by simpa [shortNames] using h)
+  | unot e ih => intro t h; exact ih t (by simpa [shortNames] using h)
   | logic o l r ihl ihr =>
     intro t h
-    simp only [noSubQuery, Bool.and_eq_true] at h
-    simp [subQueriesPlain, ihl t h.1, ihr t h.2]
-  | sym n => intro t _; rfl
-  | setFn fn n => intro t _; rfl
-  | boolC b => intro t _; rfl
+    simp only [shortNames, Bool.and_eq_true] at h
+    simp [namesOK, ihl t h.1, ihr t h.2]
 
 end StorageModel.Filter
